@@ -193,7 +193,7 @@ class Agg:
                                  'digest': r['digest']})
 
 
-FAULT_KEYS = ('stall', 'busy_timeout', 'obj_timeout', 'obj_runtime', 'obj_value', 'obj_key', 'obj_zerodiv',
+FAULT_KEYS = ('stall', 'busy_timeout', 'obj_timeout', 'obj_runtime', 'obj_value', 'obj_key', 'obj_zerodiv', 'obj_oserror', 'obj_abort',
               'prng_extreme', 'hook_decline', 'hook_accept', 'crash', 'reorder', 'duplicate', 'lock_conflict', 'foreign_lock')
 
 
